@@ -128,6 +128,7 @@ fn show(v: &[Item]) -> Vec<String> {
 }
 
 pub const ALPHA: &[u8] = b" \t=\"'ab/";
+pub const ALPHA2: &[u8] = b" \n\r\x0c=\"'a";
 
 // ---- generated attribute lists with injected faults
 
@@ -213,6 +214,19 @@ fn run(ctx: &Ctx) {
         |i| {
             let mut content = vec![b't'];
             content.extend(crate::gen::exh_bytes(ALPHA, i / 4));
+            Some(Case { content: B(content), html: i % 2 == 1, checks: (i / 2) % 2 == 1, via_reader: false })
+        },
+        check,
+    );
+    // second alphabet: all four XML blanks and a form feed (not an XML blank: part of keys/values)
+    let n2 = ctx.tier.pick(6, 7);
+    let count2 = crate::gen::exh_count(ALPHA2.len() as u64, n2);
+    ctx.run_indexed(
+        "exh-tag-content-alphabet2-x-modes",
+        count2 * 4,
+        |i| {
+            let mut content = vec![b't'];
+            content.extend(crate::gen::exh_bytes(ALPHA2, i / 4));
             Some(Case { content: B(content), html: i % 2 == 1, checks: (i / 2) % 2 == 1, via_reader: false })
         },
         check,
